@@ -668,6 +668,56 @@ def gen_conflict_chart(seed, logexpr=None):
     return ch, hist
 
 
+def gen_multiinit_chart(seed, logexpr=None):
+    """Documents about target sets with several members at different depths: a state whose initial attribute (or an <initial> element, or a
+    transition from outside) names states in several regions of a parallel, each anywhere below its region - direct children, grandchildren,
+    non-default branches -, regions left out complete by default."""
+    rng = random.Random(seed)
+    lab = [0]
+
+    def log(prefix):
+        lab[0] += 1; return [('log', '%s%d' % (prefix, lab[0]), logexpr)]
+    root = St('root', 'scxml')
+    o = St('o', 'state', root); root.children.append(o)
+    s = St('s', 'state', root); root.children.append(s)
+    if rng.random() < 0.3:
+        pre = St('spre', 'state', s); s.children.append(pre)
+    P = St('P', 'parallel', s); s.children.append(P)
+    regions = []
+    cnt = [0]
+
+    def sub(parent, depth):
+        kids = []
+        for k in range(2):
+            cnt[0] += 1
+            c = St('%s%d' % (parent.id.lower(), k + 1), 'state', parent); parent.children.append(c); kids.append(c)
+            c.onentry.append(log('N'))
+            if depth < 2 and rng.random() < 0.5: sub(c, depth + 1)
+        return kids
+    for name in ('A', 'B', 'C')[:rng.randint(2, 3)]:
+        r = St(name, 'state', P); P.children.append(r); regions.append(r); r.onentry.append(log('N'))
+        sub(r, 0)
+    ch = Chart(root)
+
+    def pick(r):
+        d = [q for q in ch.proper() if is_descendant(q, r)]
+        return rng.choice(d + [q for q in d if q.parent is not r] * 2)      # deeper ones more often
+    chosen = rng.sample(regions, rng.randint(2, len(regions)))
+    if rng.random() < 0.5: chosen.sort(key=lambda q: q.order)
+    tset = [pick(r).id for r in chosen]
+    how = rng.choice(['attr', 'elem', 'trans', 'scxml'])
+    if how == 'attr': s.initial_attr = list(tset)
+    elif how == 'elem': s.initial_elem = (list(tset), log('I'))
+    elif how == 'scxml': root.initial_attr = list(tset)
+    o.trans.append(Tr(o, ['e1'], None, list(tset) if how == 'trans' or rng.random() < 0.5 else ['s'], False, log('T')))
+    s.trans.append(Tr(s, ['e2'], None, ['o'], False, log('T')))
+    if how != 'scxml' and rng.random() < 0.5: root.initial_attr = ['s']
+    ch.reindex()
+    hist = [rng.choice(['e1', 'e2']) for _ in range(rng.randint(2, 4))]
+    if 'e1' not in hist: hist[0] = 'e1'
+    return ch, hist
+
+
 def gen_late_chart(seed, logexpr=True):
     """Documents about late binding: states with local data that is counted up on every entry; the history enters and leaves them repeatedly."""
     rng = random.Random(seed)
